@@ -211,7 +211,7 @@ class VC:
         # nlsat on the slice (fast on pure nonlinear real problems; gives up at once on anything else)
         try:
             s2 = z3.Tactic('qfnra-nlsat').solver()
-            s2.set('timeout', min(4000, self.timeout_ms))
+            s2.set('timeout', min(1500, self.timeout_ms))
             for h in sl:
                 s2.add(h)
             s2.add(neg)
